@@ -47,8 +47,56 @@ def log(msg):
 
 # ---------------------------------------------------------------- constants
 def gen_constants():
+    """Runs both translators (constants, checksum arithmetic).  Returns (ok, message); ok is False only when a
+    translator could produce nothing at all.  Partial failures are in .build/translator_status.json and are turned
+    into per-property problems by translator_problems()."""
     rc, out = sh([sys.executable, os.path.join(VERIF, "tools", "gen_constants.py")])
-    return rc == 0, out.strip()
+    rc2, out2 = sh([sys.executable, os.path.join(VERIF, "tools", "gen_checksum.py")])
+    st = {"failed": []}
+    sp = os.path.join(BUILD, "translator_status.json")
+    if rc in (0, 3) and os.path.exists(sp):
+        st = json.load(open(sp))
+    st["checksum_translator"] = None if rc2 == 0 else out2.strip()[-400:]
+    st["constants_fatal"] = None if rc in (0, 3) else out.strip()[-400:]
+    with open(sp, "w") as f:
+        json.dump(st, f, indent=1)
+    return rc in (0, 3), (out.strip() + " " + out2.strip()).strip()
+
+
+def coq_closure(prop):
+    """the .v files (relative to coq/) that Props/<prop>.v depends on, itself included"""
+    seen, todo = set(), ["Props/%s.v" % prop]
+    while todo:
+        f = todo.pop()
+        if f in seen or not os.path.exists(os.path.join(COQ, f)):
+            continue
+        seen.add(f)
+        src = strip_comments(open(os.path.join(COQ, f)).read())
+        for m in re.finditer(r"From\s+Copia\s+Require\s+(?:Import\s+|Export\s+)?(.*?)\.(?=\s|$)", src, re.S):
+            for mod in m.group(1).split():
+                todo.append(mod.replace(".", "/") + ".v")
+    return seen
+
+
+def translator_problems(prop):
+    """translator failures that concern this property: a failed constants group whose constants are mentioned in the
+    property's Coq dependency closure, or a failed checksum translation when the closure contains the checksum model"""
+    sp = os.path.join(BUILD, "translator_status.json")
+    if not os.path.exists(sp):
+        return []
+    st = json.load(open(sp))
+    if st.get("constants_fatal"):
+        return ["constants translator: " + st["constants_fatal"]]
+    files = coq_closure(prop)
+    text = "\n".join(strip_comments(open(os.path.join(COQ, f)).read()) for f in files if not f.startswith("Gen/"))
+    out = []
+    for g in st.get("failed", []):
+        used = [k for k in g["constants"] if re.search(r"\b%s\b" % re.escape(k), text)]
+        if used:
+            out.append("constants translator, group %s: %s (the model of this property uses %s)" % (g["group"], g["why"], ", ".join(used[:6])))
+    if st.get("checksum_translator") and "Model/Checksum.v" in files:
+        out.append("checksum translator: " + st["checksum_translator"])
+    return out
 
 
 # ---------------------------------------------------------------- Coq
